@@ -7,6 +7,7 @@ from sim.simlib import Sim, pdu
 
 ID = 'C07'
 TARGETS = ['SmppVerif.Props.C07']
+THOROUGH_ROUNDS = 8
 RULE = ('fault scripts of 1..9 connect cycles drawn from: connection refused / unreachable / hanging; bind answered with each of '
         'several error statuses, with a PDU of the wrong type, with an unusable header, not at all, by EOF, by reset; sessions of '
         'random length with slow connection set-up, ended by EOF, reset, unbind from the SMSC or an unusable header; stop() at a '
